@@ -1,0 +1,145 @@
+//go:build verif
+
+// Contracts for package testing/fake/queue, checked by /verif/gvc (comment-only
+// file, compiled only under the build tag "verif").
+package queue
+
+// What protobuf decoding (or a hand-built configuration) guarantees for a value message:
+// a set oneof holds a non-nil wrapper whose message exists; same for the distribution oneofs.
+//@ pred IntArmWf(m *fpb.Value) := isa(m.Value.(*fpb.Value_IntValue)) && m.Value.(*fpb.Value_IntValue).IntValue != nil ==>
+//@   (m.Value.(*fpb.Value_IntValue).IntValue.Distribution != nil ==> payload(m.Value.(*fpb.Value_IntValue).IntValue.Distribution) != nil)
+//@   && (isa(m.Value.(*fpb.Value_IntValue).IntValue.Distribution.(*fpb.IntValue_Range)) ==> m.Value.(*fpb.Value_IntValue).IntValue.Distribution.(*fpb.IntValue_Range).Range != nil)
+//@   && (isa(m.Value.(*fpb.Value_IntValue).IntValue.Distribution.(*fpb.IntValue_List)) ==> m.Value.(*fpb.Value_IntValue).IntValue.Distribution.(*fpb.IntValue_List).List != nil)
+//@ pred UintArmWf(m *fpb.Value) := isa(m.Value.(*fpb.Value_UintValue)) && m.Value.(*fpb.Value_UintValue).UintValue != nil ==>
+//@   (m.Value.(*fpb.Value_UintValue).UintValue.Distribution != nil ==> payload(m.Value.(*fpb.Value_UintValue).UintValue.Distribution) != nil)
+//@   && (isa(m.Value.(*fpb.Value_UintValue).UintValue.Distribution.(*fpb.UintValue_Range)) ==> m.Value.(*fpb.Value_UintValue).UintValue.Distribution.(*fpb.UintValue_Range).Range != nil)
+//@   && (isa(m.Value.(*fpb.Value_UintValue).UintValue.Distribution.(*fpb.UintValue_List)) ==> m.Value.(*fpb.Value_UintValue).UintValue.Distribution.(*fpb.UintValue_List).List != nil)
+//@ pred DoubleArmWf(m *fpb.Value) := isa(m.Value.(*fpb.Value_DoubleValue)) && m.Value.(*fpb.Value_DoubleValue).DoubleValue != nil ==>
+//@   (m.Value.(*fpb.Value_DoubleValue).DoubleValue.Distribution != nil ==> payload(m.Value.(*fpb.Value_DoubleValue).DoubleValue.Distribution) != nil)
+//@   && (isa(m.Value.(*fpb.Value_DoubleValue).DoubleValue.Distribution.(*fpb.DoubleValue_Range)) ==> m.Value.(*fpb.Value_DoubleValue).DoubleValue.Distribution.(*fpb.DoubleValue_Range).Range != nil)
+//@   && (isa(m.Value.(*fpb.Value_DoubleValue).DoubleValue.Distribution.(*fpb.DoubleValue_List)) ==> m.Value.(*fpb.Value_DoubleValue).DoubleValue.Distribution.(*fpb.DoubleValue_List).List != nil)
+//@ pred StringArmWf(m *fpb.Value) := isa(m.Value.(*fpb.Value_StringValue)) && m.Value.(*fpb.Value_StringValue).StringValue != nil ==>
+//@   (m.Value.(*fpb.Value_StringValue).StringValue.Distribution != nil ==> payload(m.Value.(*fpb.Value_StringValue).StringValue.Distribution) != nil)
+//@   && (isa(m.Value.(*fpb.Value_StringValue).StringValue.Distribution.(*fpb.StringValue_List)) ==> m.Value.(*fpb.Value_StringValue).StringValue.Distribution.(*fpb.StringValue_List).List != nil)
+//@ pred StringListArmWf(m *fpb.Value) := isa(m.Value.(*fpb.Value_StringListValue)) && m.Value.(*fpb.Value_StringListValue).StringListValue != nil ==>
+//@   (m.Value.(*fpb.Value_StringListValue).StringListValue.Distribution != nil ==> payload(m.Value.(*fpb.Value_StringListValue).StringListValue.Distribution) != nil)
+//@   && (isa(m.Value.(*fpb.Value_StringListValue).StringListValue.Distribution.(*fpb.StringListValue_List)) ==> m.Value.(*fpb.Value_StringListValue).StringListValue.Distribution.(*fpb.StringListValue_List).List != nil)
+//@ pred BoolArmWf(m *fpb.Value) := isa(m.Value.(*fpb.Value_BoolValue)) && m.Value.(*fpb.Value_BoolValue).BoolValue != nil ==>
+//@   (m.Value.(*fpb.Value_BoolValue).BoolValue.Distribution != nil ==> payload(m.Value.(*fpb.Value_BoolValue).BoolValue.Distribution) != nil)
+//@   && (isa(m.Value.(*fpb.Value_BoolValue).BoolValue.Distribution.(*fpb.BoolValue_List)) ==> m.Value.(*fpb.Value_BoolValue).BoolValue.Distribution.(*fpb.BoolValue_List).List != nil)
+//@ pred FakeMsgWf(m *fpb.Value) := m != nil && (m.Value != nil ==> payload(m.Value) != nil) && IntArmWf(m) && UintArmWf(m) && DoubleArmWf(m) && StringArmWf(m) && StringListArmWf(m) && BoolArmWf(m)
+// A generator state whose message exists and is well formed (newValue establishes it).
+//@ pred ValWf(v *value) := v != nil && v.v != nil && v.r != nil && FakeMsgWf(v.v)
+//@ pred TsOf(v *value) := v.v.Timestamp.Timestamp
+
+// The timestamp advances by a pseudo-random step inside the configured delta bounds.
+// Machine arithmetic (int64).
+//@ func (*value).updateTimestamp
+//@   props C20 C12
+//@   arith wrap
+//@   requires ValWf(v)
+//@   modifies v.v.Timestamp.Timestamp
+//@   ensures [needs-a-valid-timestamp-config C20] res0 == nil <==> old(v.v.Timestamp != nil && v.v.Timestamp.Timestamp >= 0 && v.v.Timestamp.DeltaMin >= 0 && v.v.Timestamp.DeltaMin <= v.v.Timestamp.DeltaMax
+//@     && !(v.v.Timestamp.DeltaMin == 0 && v.v.Timestamp.DeltaMax == 9223372036854775807))
+// (as long as the int64 timestamp itself does not overflow; when it does the wrapped, negative timestamp makes the NEXT step fail with an error)
+//@   ensures [step-within-delta-bounds C20] res0 == nil && old(TsOf(v)) + v.v.Timestamp.DeltaMax <= 9223372036854775807 ==> TsOf(v) - old(TsOf(v)) >= v.v.Timestamp.DeltaMin && TsOf(v) - old(TsOf(v)) <= v.v.Timestamp.DeltaMax
+//@   ensures [never-goes-back C20] res0 == nil && old(TsOf(v)) + v.v.Timestamp.DeltaMax <= 9223372036854775807 ==> TsOf(v) >= old(TsOf(v))
+//@   ensures [unchanged-on-error C20] res0 != nil && old(v.v.Timestamp) != nil ==> TsOf(v) == old(TsOf(v))
+
+// Integer values stay inside their range or option list. Machine arithmetic.
+//@ pred IntRng(v *value) := v.v.Value.(*fpb.Value_IntValue).IntValue.Distribution.(*fpb.IntValue_Range).Range
+//@ pred IntVal(v *value) := v.v.Value.(*fpb.Value_IntValue).IntValue
+//@ func (*value).updateIntValue
+//@   props C20 C12
+//@   arith wrap
+//@   requires ValWf(v)
+//@   modifies v.v.Value.(*fpb.Value_IntValue).IntValue.Value, heap(fpb.IntList.Options), elems(IntVal(v).Distribution.(*fpb.IntValue_List).List.Options)
+//@   ensures [stays-in-range C20] res0 == nil && isa(v.v.Value.(*fpb.Value_IntValue)) && isa(IntVal(v).Distribution.(*fpb.IntValue_Range)) ==>
+//@     IntVal(v).Value >= IntRng(v).Minimum && IntVal(v).Value <= IntRng(v).Maximum
+
+//@ func (*value).updateUintValue
+//@   props C20 C12
+//@   arith wrap
+//@   requires ValWf(v)
+//@   modifies v.v.Value.(*fpb.Value_UintValue).UintValue.Value, heap(fpb.UintList.Options), elems(v.v.Value.(*fpb.Value_UintValue).UintValue.Distribution.(*fpb.UintValue_List).List.Options)
+//@   ensures [stays-in-range C20] res0 == nil && isa(v.v.Value.(*fpb.Value_UintValue)) && isa(v.v.Value.(*fpb.Value_UintValue).UintValue.Distribution.(*fpb.UintValue_Range)) ==>
+//@     v.v.Value.(*fpb.Value_UintValue).UintValue.Value >= v.v.Value.(*fpb.Value_UintValue).UintValue.Distribution.(*fpb.UintValue_Range).Range.Minimum
+//@     && v.v.Value.(*fpb.Value_UintValue).UintValue.Value <= v.v.Value.(*fpb.Value_UintValue).UintValue.Distribution.(*fpb.UintValue_Range).Range.Maximum
+
+//@ func (*value).updateDoubleValue
+//@   props C20 C12
+//@   requires ValWf(v)
+//@   modifies v.v.Value.(*fpb.Value_DoubleValue).DoubleValue.Value, heap(fpb.DoubleList.Options), elems(v.v.Value.(*fpb.Value_DoubleValue).DoubleValue.Distribution.(*fpb.DoubleValue_List).List.Options)
+//@ func (*value).updateStringValue
+//@   props C20 C12
+//@   requires ValWf(v)
+//@   modifies v.v.Value.(*fpb.Value_StringValue).StringValue.Value, heap(fpb.StringList.Options), elems(v.v.Value.(*fpb.Value_StringValue).StringValue.Distribution.(*fpb.StringValue_List).List.Options)
+//@ func (*value).updateBoolValue
+//@   props C20 C12
+//@   requires ValWf(v)
+//@   modifies v.v.Value.(*fpb.Value_BoolValue).BoolValue.Value, heap(fpb.BoolList.Options), elems(v.v.Value.(*fpb.Value_BoolValue).BoolValue.Distribution.(*fpb.BoolValue_List).List.Options)
+//@ func (*value).updateStringListValue
+//@   props C20 C12
+//@   requires ValWf(v)
+//@   modifies v.v.Value.(*fpb.Value_StringListValue).StringListValue.Value, heap(fpb.StringList.Options), elems(v.v.Value.(*fpb.Value_StringListValue).StringListValue.Distribution.(*fpb.StringListValue_List).List.Options)
+//@ func (*value).updateStringListValue$1
+//@   props C20 C12
+//@   requires 0 <= i && i < len(options) && 0 <= j && j < len(options)
+//@   modifies elems(options)
+
+// The generator that was created with a non-zero seed is seeded with exactly that seed
+// (two queues built from the same configuration and seed draw the same stream).
+//@ func New
+//@   props C20 C12
+//@   requires forall i int :: 0 <= i && i < len(values) ==> values[i] != nil
+//@   ensures [seeded-as-asked C20] seed != 0 ==> res0 != nil && res0.r != nil && randSeed(res0.r) == seed
+
+//@ func newValue
+//@   props C20 C12
+//@   requires v != nil && r != nil
+//@   ensures [own-stream-iff-own-seed C20] res0 != nil && fresh(res0) && res0.v == v && (v.Seed == 0 ==> res0.r == r) && (v.Seed != 0 ==> res0.r != nil && randSeed(res0.r) == v.Seed)
+
+// One step of a generator: the message that was just emitted is left alone (the next
+// one is a clone), the repeat count goes down by one per emission and the generator is
+// dropped after the last one; an unbounded generator (repeat <= 0) stays unbounded.
+//@ func (*value).nextValue
+//@   props C20 C12
+//@   arith wrap
+//@   requires ValWf(v)
+//@   modifies v.v, heap(fpb.Value.Repeat), heap(fpb.Timestamp.Timestamp), heap(fpb.IntValue.Value), heap(fpb.UintValue.Value), heap(fpb.DoubleValue.Value), heap(fpb.StringValue.Value), heap(fpb.BoolValue.Value), heap(fpb.StringListValue.Value),
+//@     heap(fpb.IntList.Options), heap(fpb.UintList.Options), heap(fpb.DoubleList.Options), heap(fpb.StringList.Options), heap(fpb.BoolList.Options), heap([]int64), heap([]uint64), heap([]float64), heap([]string), heap([]bool)
+//@   ensures [dropped-after-the-last-repeat C20] old(v.v.Repeat) == 1 ==> v.v == nil && res0 == nil
+//@   ensures [emitted-message-left-alone C20] old(v.v).Repeat == old(v.v.Repeat) && (old(v.v.Timestamp) != nil ==> old(v.v.Timestamp).Timestamp == old(v.v.Timestamp.Timestamp))
+//@   ensures [repeat-counts-down C20] old(v.v.Repeat) > 1 ==> v.v != nil && v.v != old(v.v) && v.v.Repeat == old(v.v.Repeat) - 1
+//@   ensures [unbounded-stays-unbounded C20] old(v.v.Repeat) <= 0 ==> v.v != nil && v.v.Repeat == old(v.v.Repeat)
+
+// ---- the queue: buckets by timestamp, ascending --------------------------------------
+// Every bucket is non-empty, its generators are well formed, have a timestamp and share
+// it; bucket timestamps are strictly increasing.
+//@ pred TS(x *value) := x.v.Timestamp.Timestamp
+// (allocated: the objects exist - a reference found in the queue never designates an object allocated later)
+//@ pred GenOK(x *value) := ValWf(x) && x.v.Timestamp != nil && allocated(x) && allocated(x.v) && allocated(x.v.Timestamp)
+//@ pred BucketsWf(u *UpdateQueue) := forall i int :: 0 <= i && i < len(u.q) ==> len(u.q[i]) >= 1 && allocated(u.q[i])
+//@   && (forall j int :: 0 <= j && j < len(u.q[i]) ==> GenOK(u.q[i][j]) && TS(u.q[i][j]) == TS(u.q[i][0]))
+//@ pred Ascending(u *UpdateQueue) := forall a int, b int :: 0 <= a && a < b && b < len(u.q) ==> TS(u.q[a][0]) < TS(u.q[b][0])
+// (buckets do not share backing arrays: each starts as a one-element literal and is only appended to or re-sliced)
+//@ pred OwnArrays(u *UpdateQueue) := forall a int, b int :: 0 <= a && a < b && b < len(u.q) ==> arr(u.q[a]) != arr(u.q[b])
+//@ pred QInv(u *UpdateQueue) := u != nil && BucketsWf(u) && Ascending(u) && OwnArrays(u)
+
+// addValue files the generator under its timestamp: the binary search ends at a bucket
+// with exactly that timestamp (the generator is appended to it), or at the one position
+// where every earlier bucket is older and every later one newer (a new bucket is
+// inserted there). That inserting at such a position keeps QInv is not machine-checked
+// (nested appends of slices of slices; argued in DESIGN.md).
+//@ func (*UpdateQueue).addValue
+//@   props C20 C12
+//@   requires QInv(u) && ValWf(v) && allocated(v.v) && allocated(v.v.Timestamp)
+//@   modifies u.q, u.latest, v.v.Timestamp, heap([][]*value), heap([]*value)
+//@   invariant 0: 0 <= l && l <= r && r <= len(u.q) && u.q == old(u.q) && BucketsWf(u) && Ascending(u) && OwnArrays(u) && v.v.Timestamp != nil && t == TS(v)
+//@     && (forall i int :: 0 <= i && i < l ==> TS(u.q[i][0]) < t) && (forall i int :: r <= i && i < len(u.q) ==> TS(u.q[i][0]) > t)
+//@   assert at builtin append#0: [new-bucket-at-the-sorted-position C20] l == r && (forall i int :: 0 <= i && i < r ==> TS(u.q[i][0]) < t) && (forall i int :: r <= i && i < len(u.q) ==> TS(u.q[i][0]) > t)
+//@   assert at builtin append#2: [joins-the-bucket-of-its-timestamp C20] 0 <= i && i < len(u.q) && TS(u.q[i][0]) == t
+//@   ensures [buckets-wf C20] BucketsWf(u)
+//@   ensures [ascending C20] Ascending(u)
+//@   ensures [own-arrays C20] OwnArrays(u)
+//@   ensures [latest-tracks-the-maximum C20] u.latest == ite(TS(v) > old(u.latest), TS(v), old(u.latest))
